@@ -89,7 +89,8 @@ def C08():
 C04_CLASSES = r'^(copy|typeset|newold|bounds|weights|iter-|query-|functional|enum-cases|fixpoint|panic)'
 C05_CLASSES = r'^(count|root|equality|visible|fresh|define-|panic)'
 C07_CLASSES = r'^(resume-|until-)'
-C01_CLASSES = r'^(rule-|functional)'
+C01_CLASSES = r'^(rule-|functional|chase-missing)'
+C02_CLASSES = r'^chase-'
 C03_CLASSES = r'^(history-|fixpoint)'
 C15_CLASSES = r'^enum-'
 C06_CLASSES = r'^(grow|diverge)'
@@ -105,7 +106,8 @@ def gen_native():
                        'calls (before the first close), root_ idempotent and in class, inserted tuples visible once while no equate_ happened since the last close, define_ returns the '
                        'existing value or a fresh element; after every close: iterators duplicate-free and canonical, one representative per class, point queries == iterators and '
                        'invariant under equal arguments, functions single-valued, closing again changes nothing; C01: for every flat rule of the program (parsed from the comments of the emitted module) and every '
-                       'assignment of canonical elements matching its premise in the iterators, every conclusion holds (tuple present / elements equal / function defined); C07: close_until with conditions "k-th evaluation" (k = 1..3) and '
+                       'assignment of canonical elements matching its premise in the iterators, every conclusion holds (tuple present / elements equal / function defined); C02: the closed model is '
+                       'isomorphic (fixing the caller\'s elements) to the result of an independent naive chase of the flat rules over the asserted facts; C07: close_until with conditions "k-th evaluation" (k = 1..3) and '
                        '"iter_<rel> yields >= n tuples": the return value equals the condition in the state returned, false only in a closed state, and after every close() / close_until() == false '
                        'the model is isomorphic (fixing the caller\'s elements) to a fresh model on which the same assertions were replayed and closed once; C03: the same comparison against a fresh '
                        'model that received the assertions in reverse order, each twice; C06: close()/close_until() allocate no element when the program has no non-surjective conclusion; '
@@ -384,6 +386,19 @@ def C15():
     }
 
 
+def C02():
+    gn = gen_native()
+    return {
+        'level': 'exploration', 'parts': [gn], 'samples': [], 'own_classes': C02_CLASSES,
+        'assumptions': [
+            'bounded: programs are the probe theories (thorough: also 11 theories of eqlog-test-eval/src); operation sequences over 3 elements per type plus two bulk histories, as stated in coverage.rule; never counted as proof',
+            'the reference is a naive chase written for this check (exec/gen/model_driver.rs: Chase): plain sets of tuples and a union-find, every flat rule applied to every match until nothing changes, functions single-valued, function definitions applied as soon as a rule asks for them; it shares no code with eqlog',
+            'the rules are the FLAT rules the compiler prints above each emitted rule function (as for C01): the chase is a reference for everything behind flattening, not for the source-level semantics of nested terms / premise equalities',
+            'after every close() (and every close_until() == false) the model must be isomorphic to the chase result by a map fixing the caller\'s elements: same classes, same tuples, every class reachable from the caller\'s elements through function graphs; a chase that does not reach a fixed point within 400 rounds is skipped (no comparison)',
+        ],
+    }
+
+
 def C03():
     gn = gen_native()
     return {
@@ -486,7 +501,7 @@ def C18():
     }
 
 
-PROPERTIES = {'C15': C15, 'C09': C09, 'C19': C19, 'C13': C13, 'C20': C20, 'C01': C01, 'C03': C03, 'C04': C04, 'C05': C05, 'C06': C06, 'C07': C07, 'C14': C14, 'C08': C08, 'C16': C16, 'C18': C18, 'C11': C11}
+PROPERTIES = {'C02': C02, 'C15': C15, 'C09': C09, 'C19': C19, 'C13': C13, 'C20': C20, 'C01': C01, 'C03': C03, 'C04': C04, 'C05': C05, 'C06': C06, 'C07': C07, 'C14': C14, 'C08': C08, 'C16': C16, 'C18': C18, 'C11': C11}
 
 NATIVES = {'uf_0': lambda: uf_native(0), 'uf_1': lambda: uf_native(1), 'rt_wb': lambda: rt_native('wb'), 'rt_pt': lambda: rt_native('pt'), 'rt_ts': lambda: rt_native('ts'), 'sn': sn_native, 'sd': sd_native, 'gen': gen_native, 'emit_sn': emit_sn, 'gen_twice': GenTwice, 'compile_twice': compile_twice, 'gen_both_builds': GenBothBuilds, 'compile_ok': compile_ok}
 
